@@ -49,7 +49,10 @@ def construct(ctxname, e, idx):
                 ifcond="if (%s) k++;" % e, assignrhs="d = %s;" % e, stmtexprdiscard="({ %s; });" % e,
                 stmtexprvalue="d = ({ k++; %s; });" % e,
                 ldpendcomma="LD = LA + ((%s), LB);" % e, ldpendstmtexpr="LD = LA * ({ %s; LB; });" % e,
-                ldpendvoid="k = LA < ((void)(%s), LB);" % e)[ctxname]
+                ldpendvoid="k = LA < ((void)(%s), LB);" % e,
+                condmixthen="c ? (%s) : (void)0;" % e, condmixelse="c ? (void)0 : (%s);" % e,
+                whilecond="while (%s) break;" % e, forcond="for (; %s; ) break;" % e,
+                docond="k = 0; do { if (k++) break; } while (%s);" % e)[ctxname]
 
 
 def render_unit(ty, cases, ns=NS):
@@ -114,6 +117,150 @@ def render_chains(cases):
     src.append("int main(void) { long out[2]; for (int i = 0; i < %d; i++) for (int j = 0; j < %d; j++) {"
                " probe_reset(); tab[i](ns[j], out); int tag = probe_x87(); int ok = ldcheck(1.25L, 2.5L); probe_reset();"
                " printf(\"%%d %%ld %%ld %%d %%d\\n\", ids[i], ns[j], out[1] - out[0], tag, ok); } return 0; }" % (len(cases), len(CHAIN_NS)))
+    return "\n".join(src) + "\n"
+
+
+# ------------------------------------- jumps out of an expression with values pending (Jumps.tla)
+def jump_sig(cs):
+    return "jumpout:%s:%s:%s" % (cs["jump"], cs["construct"], cs["pend"])
+
+
+def jump_stmt(cs):
+    j = {"continue": "continue", "break": "break", "gotofwd": "goto Lf", "gotoback": "goto Lb", "return": "return 1"}[cs["jump"]]
+    sei = "({ if (c) %s; 8; })" % j
+    sex = "({ if (c) %s; LB; })" % j
+    return dict(none="({ if (c) %s; k++; });" % j, assign="k = %s;" % sei, rhs="%s + k;" % sei, rhsf="%s + dk;" % sei,
+                args7="use7(%s, 1, 2, 3, 4, 5, 6, 7);" % sei, structarg="uses(%s, sv);" % sei, ldarg="usel(%s, LA);" % sei,
+                x87="LA + %s;" % sex, x87cmp="LA < %s;" % sex, x87two="LA + (LB + %s);" % sex)[cs["pend"]]
+
+
+JLOCALS = "int k = 0, c = 0; double dk = 2.5; long double LA = 1.5L, LB = 2.5L; struct Bg sv = {{1, 2, 3, 4, 5}};"
+
+
+def jump_loop(cs):
+    st, i = jump_stmt(cs), cs["idx"]
+    jc = (cs["jump"], cs["construct"])
+    if jc == ("continue", "for"):
+        return "for (long it = 0; it < n; it++) { c = (int)(it & 1); %s }" % st
+    if jc == ("continue", "while"):
+        return "{ long it = 0; while (it < n) { c = (int)(it & 1); it++; %s } }" % st
+    if jc == ("continue", "do"):
+        return "{ long it = 0; do { c = (int)(it & 1); it++; %s } while (it < n); }" % st
+    if jc == ("break", "for"):
+        return "for (long it = 0; it < n; it++) { c = (int)(it & 1); for (k = 0; k < 2; k++) { %s } }" % st
+    if jc == ("break", "while"):
+        return "for (long it = 0; it < n; it++) { c = (int)(it & 1); k = 0; while (k++ < 2) { %s } }" % st
+    if jc == ("break", "do"):
+        return "for (long it = 0; it < n; it++) { c = (int)(it & 1); k = 0; do { %s } while (k++ < 1); }" % st
+    if jc == ("break", "switch"):
+        return "for (long it = 0; it < n; it++) { c = (int)(it & 1); switch (k & 0) { case 0: %s } }" % st
+    if jc == ("gotofwd", "block"):
+        return "for (long it = 0; it < n; it++) { c = (int)(it & 1); { %s k++; } Lf: ; }" % st
+    if jc == ("gotoback", "block"):
+        return "{ long it = 0; Lb: if (it < n) { c = (int)(it & 1); it++; %s goto Lb; } }" % st
+    if jc == ("return", "fn"):
+        return "for (long it = 0; it < n; it++) k += r_%d((int)(it & 1));" % i
+    raise Infra("jump case %r" % (jc,))
+
+
+def render_jumps(cases):
+    src = ["int printf(const char *, ...);", "long probe_rsp(void); int probe_x87(void); void probe_reset(void);",
+           "struct Bg { long x[5]; };",
+           "static void use7(int a1, int a2, int a3, int a4, int a5, int a6, int a7, int x) {}",
+           "static void uses(int x, struct Bg s) {}", "static void usel(int x, long double l) {}",
+           "static int ldcheck(long double u, long double v) { long double w = u * v + u; return w == 4.375L; }"]
+    for cs in cases:
+        if cs["jump"] == "return":
+            src.append("static int r_%d(int c) { %s %s return 0; }" % (cs["idx"], JLOCALS.replace("c = 0", "c0 = 0"), jump_stmt(cs)))
+        src.append("void c_%d(long n, long *out) { %s out[0] = probe_rsp(); %s out[1] = probe_rsp(); }" % (cs["idx"], JLOCALS, jump_loop(cs)))
+    src.append("static void (*tab[])(long, long *) = {%s};" % ", ".join("c_%d" % cs["idx"] for cs in cases))
+    src.append("static int ids[] = {%s};" % ", ".join(str(cs["idx"]) for cs in cases))
+    src.append("static long ns[] = {%s};" % ", ".join(str(n) for n in CHAIN_NS))
+    src.append("int main(void) { long out[2]; for (int i = 0; i < %d; i++) for (int j = 0; j < %d; j++) {"
+               " probe_reset(); tab[i](ns[j], out); int tag = probe_x87(); int ok = ldcheck(1.25L, 2.5L); probe_reset();"
+               " printf(\"%%d %%ld %%ld %%d %%d\\n\", ids[i], ns[j], out[1] - out[0], tag, ok); } return 0; }" % (len(cases), len(CHAIN_NS)))
+    return "\n".join(src) + "\n"
+
+
+# ------------------------------------- an expression evaluated with N values pending (Pending.tla)
+PEND_ITER = 9
+PLOCALS = "long a = 3, b = 5, d = 9, k = 0, kk = 24; int c = (int)(it & 1);"
+PFORM = dict(var="a", call="idl(a)", alloca8="fill(alloca(8), 8, a)", alloca24="fill(alloca(24), 24, a)", alloca100="fill(alloca(100), 100, a)",
+             allocan="fill(alloca(kk), kk, a)", vla="({ char v[kk]; fill(v, kk, a); })", stmtexpr="({ k++; a; })", cond="(c ? a : b)",
+             assign="(a = b)", chain="(a = b = d)", postinc="a++", call8="sum8(a, b, d, 1, 2, 3, 4, 5)")
+XLOCALS = "T a = 1.5L, b = 2.5L, d = 4.5L; T arr[3]; struct W s; T *pa = &a; int k = 3; int c = (int)(it & 1); arr[1] = 6.5L; s.m = 5.5L;"
+PMIX = [("struct S3", "ts"), ("long", "tl"), ("double", "td"), ("long double", "tx")]          # argument i has type PMIX[i % 4]
+
+
+def pend_sig(cs):
+    return "pending:%s:%s:%s:n%d" % (cs["bank"], cs["pat"], cs["form"], cs["n"])
+
+
+def pend_operand(pat, i):
+    if pat == "long":
+        return "tl%d" % i
+    if pat == "double":
+        return "td%d" % i
+    if pat == "alt":
+        return ("tl%d" if i % 2 else "td%d") % i
+    if pat == "mix":
+        return "%s%d" % (PMIX[i % 4][1], i)
+    return "tx%d" % i
+
+
+def pend_expr(cs):
+    b, pat, n = cs["bank"], cs["pat"], cs["n"]
+    if b == "x87":
+        e = "deep8()" if cs["form"] == "calldeep" else "(%s)" % expr(cs["form"], "ldouble")
+        for i in range(n, 0, -1):
+            e = "(tx%d + %s)" % (i, e)
+        return e
+    e = PFORM[cs["form"]]
+    if b == "sum":
+        for i in range(1, n + 1):
+            e = "(%s + %s)" % (e, pend_operand(pat, i))
+        return e
+    return "pk_%s_%d(%s)" % (pat, n, ", ".join([e] + [pend_operand(pat, i) for i in range(1, n + 1)]))
+
+
+def render_pending(bank, cases):
+    src = ["int printf(const char *, ...);", "long probe_rsp(void); int probe_x87(void); void probe_reset(void);",
+           "struct S3 { long a, b, c; };", "typedef long double T;", "struct W { int pad; T m; };",
+           "static long double mk(void) { long double v = 1.5L; return v; }", "static long double id2(long double x, long double y) { return y; }",
+           "static long fill(void *p, long n, long x) { unsigned char *q = p; long s = 0; for (long i = 0; i < n; i++) q[i] = 0x55;"
+           " for (long i = 0; i < n; i++) s += q[i]; return x + s - n * 0x55; }",
+           "static long idl(long x) { return x; }",
+           "static long sum8(long a1, long a2, long a3, long a4, long a5, long a6, long a7, long a8)"
+           " { return a1 + 2 * a2 + 3 * a3 + 4 * a4 + 5 * a5 + 6 * a6 + 7 * a7 + 8 * a8; }",
+           "static int ldcheck(long double u, long double v) { long double w = u * v + u; return w == 4.375L; }"]
+    for i in range(1, 13):
+        src.append("static long tl%d = %d; static double td%d = %d; static long double tx%d = %d; static struct S3 ts%d = {0, %d, 0};"
+                   % (i, 3 ** i, i, 3 ** i, i, 3 ** i, i, 3 ** i))
+    src.append("static long double dv = 1.5L;"
+               " static long double deep8(void) { return tx1 + (tx2 + (tx3 + (tx4 + (tx5 + (tx6 + (tx7 + dv)))))); }")
+    for pat, n in sorted(set((cs["pat"], cs["n"]) for cs in cases if cs["bank"] == "args")):
+        ty = lambda i: "long" if pat == "long" else PMIX[i % 4][0]
+        val = lambda i: ("t%d.b" if ty(i) == "struct S3" else "(long)t%d") % i
+        src.append("static long pk_%s_%d(%s) { return %s; }" % (pat, n, ", ".join(["long e"] + ["%s t%d" % (ty(i), i) for i in range(1, n + 1)]),
+                                                                " + ".join(["e"] + ["%d * %s" % (i + 1, val(i)) for i in range(1, n + 1)])))
+    for cs in cases:
+        e = pend_expr(cs)
+        if bank == "x87":
+            body = "%s T r = %s; return (long)(r * 2);" % (XLOCALS, e)
+        elif bank == "sum" and cs["pat"] != "long" and cs["n"] > (1 if cs["pat"] == "alt" else 0):
+            body = "%s double r = %s; return (long)(r * 2);" % (PLOCALS, e)
+        else:
+            body = "%s long r = %s; return r * 2;" % (PLOCALS, e)
+        src.append("long p_%d(long it) { %s }" % (cs["idx"], body))
+    src.append("static long (*tab[])(long) = {%s};" % ", ".join("p_%d" % cs["idx"] for cs in cases))
+    src.append("static int ids[] = {%s};" % ", ".join(str(cs["idx"]) for cs in cases))
+    src.append("static long exps[][2] = {%s};" % ", ".join("{%d, %d}" % tuple(cs["exp"]) for cs in cases))
+    # argv[1] = position of the first case to run (the harness restarts behind a case that killed the program)
+    src.append("int atoi(const char *); int fflush(void *);")
+    src.append("int main(int argc, char **argv) { for (int i = argc > 1 ? atoi(argv[1]) : 0; i < %d; i++) { long bad = 0, got = 0; probe_reset();"
+               " for (long it = 0; it < %d; it++) { long v = tab[i](it); if (v != exps[i][it & 1]) { bad++; got = v; } }"
+               " int tag = probe_x87(); int ok = ldcheck(1.25L, 2.5L); probe_reset();"
+               " printf(\"%%d %%ld %%ld %%d %%d\\n\", ids[i], bad, got, tag, ok); fflush(0); } return 0; }" % (len(cases), PEND_ITER))
     return "\n".join(src) + "\n"
 
 
@@ -240,15 +387,21 @@ def control(ctx):
     x87_leak = [ins("base", 16), ins("stmt+", 1, 0), ins("x", 1, s="fldt"), ins("stmt-", 1, 0), ins("x", -1), ins("reset"), ins("ret", 0)]
     misalign = [ins("base", 16), ins("d", -1), ins("call"), ins("d", 1), ins("reset"), ins("ret", 0)]
     depth = [ins("base", 16), ins("d", -1), ins("stmt+", 1, 0), ins("stmt-", 1, 0), ins("d", 1), ins("reset"), ins("ret", 0)]
+    livecall = [ins("base", 16), ins("x", 1, s="fldt"), ins("call", 1, s="call f"), ins("x", -1, s="faddp"), ins("x", -1), ins("reset"), ins("ret", 0)]
     good = [ins("base", 16), ins("stmt+", 1, 0), ins("d", -1), ins("x", 1), ins("jcc", t=[7]), ins("nop"), ins("x", -1), ins("d", 1),
             ins("stmt-", 1, 0), ins("reset"), ins("ret", 0)]
     prog = [dict(fn="control:" + n, code=c, starts=[i + 1 for i, x in enumerate(c) if x["k"] == "stmt+"])
-            for n, c in (("leak_loop", leak_loop), ("x87_leak", x87_leak), ("misalign", misalign), ("depth", depth), ("good", good))]
+            for n, c in (("leak_loop", leak_loop), ("x87_leak", x87_leak), ("misalign", misalign), ("depth", depth), ("livecall", livecall), ("good", good))]
     v = run_stackdisc(ctx, prog, "control", ["fn", "st"], workers=2)
     got = {(r["fn"].split(":")[1], r["kind"]) for r in v}
-    want = {("leak_loop", "rsp-unbounded"), ("x87_leak", "x87-residue-at-stmt-end"), ("misalign", "call-misaligned"), ("depth", "logged-depth-differs")}
+    want = {("leak_loop", "rsp-unbounded"), ("x87_leak", "x87-residue-at-stmt-end"), ("misalign", "call-misaligned"), ("depth", "logged-depth-differs"), ("livecall", "x87-live-at-call")}
     if not want <= got or any(f == "good" for f, _ in got):
         raise Infra("sensitivity control failed: StackDisc flagged %s, expected %s and nothing in `good`" % (sorted(got), sorted(want)))
+    # the x87 budget: a store() that needs one register more than its operand must be rejected by Pending.tla
+    res = ctx.tlc("stack", "Pending", ctx.cfg("stack", "Pending.cfg", name="Pending-ctl", Variant='"assign-dup"', Stride=997, TreeDepth=1),
+                  env=dict(OUT=os.path.join(ctx.scratch, "pending-ctl.ndjson")), workers=1, timeout=300, heap="1g", count=False)
+    if res.ok:
+        raise Infra("sensitivity control failed: Pending.tla accepts the variant 'assign-dup'")
 
 
 # --------------------------------------------------------- Discard corpus
@@ -339,6 +492,74 @@ def run_discard_programs(ctx, tree, units):
     return {ty: (rc, res) for ty, rc, res in vt.pmap(one, sorted(units.items()))}
 
 
+def run_pending(ctx, tree, punits, probe=None):
+    """Pending.tla programs: compile with the tree's chibicc, link the probes, run (restarting behind a case that kills the
+    program); a value that differs from Level A is given to gcc too"""
+    d = ctx.tmp("c20-pend")
+    probe = os.path.join(d, "probe.o")
+    r = vt.sh(["cc", "-O1", "-c", "-o", probe, os.path.join(vt.VERIF, "harness/c/c20_probe.c")])
+    if r.returncode:
+        raise Infra("probe build failed: " + r.stderr[-500:])
+
+    def rows(exe, cl):
+        got, died, start = {}, [], 0
+        for _ in range(8):
+            p = vt.run_limited([exe, str(start)], timeout=120, mem_gb=2)
+            for l in p.stdout.splitlines():
+                f = l.split()
+                if len(f) == 5:
+                    got[int(f[0])] = tuple(int(x) for x in f[1:])
+            missing = [k for k, cs in enumerate(cl) if k >= start and cs["idx"] not in got]
+            if p.returncode == 0 or not missing:
+                break
+            died.append((cl[missing[0]]["idx"], p.returncode))
+            start = missing[0] + 1
+        return got, died
+
+    def one(item):
+        bank, (f, cl) = item
+        obj, exe = f[:-2] + ".o", f[:-2] + ".exe"
+        r = vt.run_limited([tree + "/chibicc", "-I" + tree + "/include", "-c", "-o", obj, f], timeout=120)
+        if r.returncode:
+            raise Infra("chibicc -c failed on %s: %s" % (f, r.stderr[-500:]))
+        r = vt.sh(["cc", "-no-pie", "-o", exe, obj, probe], timeout=60)
+        if r.returncode:
+            raise Infra("link failed on %s: %s" % (f, r.stderr[-500:]))
+        got, died = rows(exe, cl)
+        ggot = {}
+        if died or any(got.get(cs["idx"], (1,))[0] != 0 for cs in cl):
+            r = vt.sh(["cc", "-w", "-O0", "-Dalloca=__builtin_alloca", "-no-pie", "-o", exe + ".gcc", f, probe], timeout=120)
+            if r.returncode == 0:
+                ggot = rows(exe + ".gcc", cl)[0]
+        return bank, got, dict(died), ggot
+    n = 0
+    for bank, got, died, ggot in vt.pmap(one, sorted(punits.items()), workers=4):
+        f, cl = punits[bank]
+        for cs in cl:
+            sig = pend_sig(cs)
+            ctx.note_case("run:" + sig, nontrivial=cs["n"] > 0)
+            g = got.get(cs["idx"])
+            if g is None and cs["idx"] not in died:
+                continue                                    # behind the restart limit: not run
+            n += 1
+            e = pend_expr(cs)
+            if ggot.get(cs["idx"], (1,))[0] != 0 and (g is None or g[0] != 0):
+                ctx.oracle_disagreements += 1               # the reference compiler does not deliver the Level A value either
+                continue
+            case = dict(kind="pending", bank=bank, case=cs, expr=e, expected=cs["exp"], observed=g, source=open(f).read())
+            if g is None:
+                ctx.report(sig + ":program-died", "`%s`: the program died (status %s) while evaluating it with %d values pending" % (e, died[cs["idx"]], cs["n"]), case=case)
+            elif g[0]:
+                ctx.report(sig + ":value-lost", "`%s` evaluated with %d values pending (%s, %s): Level A and gcc give %s (doubled), the tree's chibicc gives %d in %d of %d evaluations"
+                           % (e, cs["n"], bank, cs["pat"], cs["exp"], g[1], g[0], PEND_ITER), case=case)
+            elif g[2] != 0xffff or g[3] != 1:
+                ctx.report(sig + (":run-x87-residue" if g[2] != 0xffff else ":run-ld-corrupted"),
+                           "`%s` with %d values pending: x87 tag word %#06x afterwards (0xffff = empty), later long double computation %s"
+                           % (e, cs["n"], g[2], "correct" if g[3] == 1 else "WRONG"), case=case)
+    ctx.cov["traces_validated_against_impl"] += n
+    return n
+
+
 # -------------------------------------------------------------------- run
 def report_static(ctx, viol, byfn, casemap, unitsrc):
     """viol: emitted violation records; one report per (function, kind)."""
@@ -400,6 +621,24 @@ def run(ctx):
             f = os.path.join(d, "chains_%d.c" % j)
             open(f, "w").write(render_chains(cl))
             units["chains_%d" % j] = (f, cl)
+    # jumps out of a statement expression while values of the enclosing expression are pending (Jumps.tla): all of them
+    jumps = builder_cases(ctx, "Jumps", 1)
+    for cs in jumps:
+        cs.update(form="jump", type=cs["pend"], sig=jump_sig(cs), text="`%s` (%s out of a %s)" % (jump_stmt(cs), cs["jump"], cs["construct"]))
+    f = os.path.join(d, "jumps.c")
+    open(f, "w").write(render_jumps(jumps))
+    units["jumps"] = (f, jumps)
+    # an expression evaluated with N values pending on the machine stack / the x87 stack (Pending.tla)
+    pcases = builder_cases(ctx, "Pending", 6 if q else 1)
+    punits = {}
+    for bank in ("sum", "args", "x87"):
+        cl = [cs for cs in pcases if cs["bank"] == bank]
+        for cs in cl:
+            cs.update(type=bank, sig=pend_sig(cs), text="`%s`" % pend_expr(cs))
+        if cl:
+            f = os.path.join(d, "pending_%s.c" % bank)
+            open(f, "w").write(render_pending(bank, cl))
+            punits[bank] = (f, cl)
     # two or three live results of calls returning the same aggregate type (LiveCalls.tla)
     lcases = builder_cases(ctx, "LiveCalls", 6 if q else 1)
     lunits = {}
@@ -411,7 +650,7 @@ def run(ctx):
             lunits[cls] = (f, cl)
 
     def label(ty):
-        return ty if ty.startswith("chains") else "discard_" + ty
+        return ty if ty.startswith(("chains", "jumps")) else "discard_" + ty
 
     def comp(item):
         ty, (f, cl) = item
@@ -423,6 +662,15 @@ def run(ctx):
         for cs in units[ty][1]:
             casemap["%s:c_%d" % (label(ty), cs["idx"])] = cs
             casemap["%s:r_%d" % (label(ty), cs["idx"])] = cs
+
+    def compp(item):
+        bank, (f, cl) = item
+        return bank, unit_program(ctx, tree, "pending_" + bank, f, [])
+    for bank, (pr, hooked, asm) in vt.pmap(compp, sorted(punits.items())):
+        prog += pr
+        unitsrc["pending_" + bank] = (open(punits[bank][0]).read(), asm, None)
+        for cs in punits[bank][1]:
+            casemap["pending_%s:p_%d" % (bank, cs["idx"])] = cs
 
     def compl(item):
         cls, (f, cl) = item
@@ -496,6 +744,7 @@ def run(ctx):
                     break
     ctx.cov["traces_validated_against_impl"] += nrun
     nlive = run_livecalls(ctx, tree, lunits)
+    npend = run_pending(ctx, tree, punits)
     ctx.sample(dict(kind="discard program run", case=cases[len(cases) // 2], construct=construct(cases[len(cases) // 2]["ctx"], expr(cases[len(cases) // 2]["form"], cases[len(cases) // 2]["type"]), 0), iterations=list(NS)))
     ctx.phase("replay")
     ctx.assumptions += ["frame set-up/tear-down (push rbp / mov rsp,rbp / sub $n,rsp ... mov rbp,rsp / pop rbp) is pattern-recognised; rsp8 is relative to the post-prologue value",
@@ -504,20 +753,34 @@ def run(ctx):
     return ctx.finish(rule="case = one function of the emitted code (explored from its entry and from each of its statements) or one (form, type, context) Discard program run with N in {1, 9, 100000}; non-trivial = more than 12 instructions; distinct = distinct function / (form, type, context)",
                       exhaustive=not q,
                       extra=dict(functions=len(prog), statements=nst, instructions=sum(len(p["code"]) for p in prog),
-                                 discard_cases=len(cases), chain_cases=len(chains), livecall_cases=nlive, discard_runs=nrun, hooked=bool(hooked_any)))
+                                 discard_cases=len(cases), chain_cases=len(chains), livecall_cases=nlive, jump_cases=len(jumps), pending_cases=npend, discard_runs=nrun, hooked=bool(hooked_any)))
+
+
+def unit_for(cs):
+    """-> (unit label, C source, function-name prefixes) of the one-case unit a recorded case belongs to"""
+    sig = cs.get("sig") or ""
+    if sig.startswith("jumpout:"):
+        return "jumps", render_jumps([cs])
+    if sig.startswith("pending:"):
+        return "pending_" + cs["bank"], render_pending(cs["bank"], [cs])
+    if sig.startswith("chain:"):
+        return "chains_0", render_chains([cs])
+    return "discard_" + cs["type"], render_unit(cs["type"], [cs])
 
 
 def replay(ctx, path):
     c = json.load(open(os.path.join(path, "case.json")))
-    c = c.get("case") or c
+    if "kind" not in c:
+        c = c.get("case") or c          # written by ctx.report: {sig, what, case}
     tree = ctx.build()
     if c.get("kind") == "static":
         if c.get("case"):
             cs = c["case"]
-            f = os.path.join(ctx.tmp("c20-src"), "discard_%s.c" % cs["type"])
-            open(f, "w").write(render_unit(cs["type"], [cs]))
-            prog, hooked, asm = unit_program(ctx, tree, "discard_" + cs["type"], f, [])
-            casemap = {"discard_%s:c_%d" % (cs["type"], cs["idx"]): cs, "discard_%s:r_%d" % (cs["type"], cs["idx"]): cs}
+            lab, src = unit_for(cs)
+            f = os.path.join(ctx.tmp("c20-src"), lab + ".c")
+            open(f, "w").write(src)
+            prog, hooked, asm = unit_program(ctx, tree, lab, f, [])
+            casemap = {"%s:%s_%d" % (lab, pfx, cs["idx"]): cs for pfx in ("c", "r", "p")}
         else:
             src = os.path.join(tree, c["source"])
             prog, hooked, asm = unit_program(ctx, tree, c["source"], src, [tree + "/test", tree])
@@ -527,10 +790,16 @@ def replay(ctx, path):
         report_static(ctx, viol, {p["fn"]: p for p in prog}, casemap, {})
     elif c.get("kind") == "run":
         cs = c["case"]
-        f = os.path.join(ctx.tmp("c20-src"), "discard_%s.c" % cs["type"])
-        open(f, "w").write(render_unit(cs["type"], [cs]))
-        rc, res = run_discard_programs(ctx, tree, {cs["type"]: (f, [cs])})[cs["type"]]
+        lab, src = unit_for(cs)
+        f = os.path.join(ctx.tmp("c20-src"), lab + ".c")
+        open(f, "w").write(src)
+        rc, res = run_discard_programs(ctx, tree, {lab: (f, [cs])})[lab]
         for (n, diff, tag, ok) in res.get(cs["idx"], []):
             if diff != 0 or tag != 0xffff or ok != 1:
-                ctx.report("discard:%s:%s:%s:run" % (cs["form"], cs["type"], cs["ctx"]), "N=%d rsp_diff=%d tag=%#x ld_ok=%d" % (n, diff, tag, ok), case=c)
+                ctx.report((cs.get("sig") or "discard:%s:%s:%s" % (cs["form"], cs["type"], cs["ctx"])) + ":run", "N=%d rsp_diff=%d tag=%#x ld_ok=%d" % (n, diff, tag, ok), case=c)
+    elif c.get("kind") == "pending":
+        cs = c["case"]
+        f = os.path.join(ctx.tmp("c20-src"), "pending_%s.c" % cs["bank"])
+        open(f, "w").write(render_pending(cs["bank"], [cs]))
+        run_pending(ctx, tree, {cs["bank"]: (f, [cs])})
     return ctx.finish(rule="replay of one recorded case")
